@@ -167,6 +167,60 @@ fn scenarios(kind: usize, seed: u64, thorough: bool) -> Vec<Scenario> {
     v
 }
 
+/// Generated scenarios that need no volume: the 2^32 boundary is placed by the stream's start
+/// position (mode 0: anywhere inside the payload, between / inside / after the chunks of 1-3
+/// tracks that may or may not hold buffered samples when write_end is called) or by durations
+/// and timescales (mode 1: totals that cross 2^32 in media ticks, in movie ticks, in one of them
+/// only, with movie / track timescales from 1 to 2^32-1).
+fn generated(seed: u64, i: u64) -> Scenario {
+    let two32: u64 = 1 << 32;
+    let ts_set = [1u32, 2, 1000, 48000, 90000, 1_000_000_000, 1 << 31, u32::MAX - 1, u32::MAX];
+    for attempt in 0..40u64 {
+        let mut rng = Rng::derive(seed, 0xC13A + attempt, i);
+        let mode = i % 2;
+        let ntr = 1 + rng.below(3) as usize;
+        let mts = if mode == 1 { *rng.pick(&ts_set) } else { *rng.pick(&[1000u32, 600, 90000]) };
+        let mut ops = Vec::new();
+        let mut tss = Vec::new();
+        for _ in 0..ntr {
+            let ts = if mode == 1 { *rng.pick(&ts_set) } else { *rng.pick(&[1000u32, 48000, 90000, 1]) };
+            tss.push(ts);
+            ops.push(Op::Add(track(rng.below(5) as usize, ts)));
+        }
+        let nw = 2 + rng.below(10);
+        let mut payload = 0u64;
+        for _ in 0..nw {
+            let t = rng.below(ntr as u64) as usize;
+            let ts = tss[t];
+            let duration = if mode == 1 {
+                *rng.pick(&[0u32, 1, 0x4000_0000, 0x6000_0000, 0x8000_0000, u32::MAX - 1, u32::MAX, ts])
+            } else {
+                // a chunk is closed once it holds a second of media: closing and non-closing writes
+                *rng.pick(&[0u32, 1, 7, ts / 2, ts, ts.saturating_mul(2)])
+            };
+            let size = rng.below(48) as u32;
+            payload += size as u64;
+            ops.push(Op::Write { track_id: t as u32 + 1, s: SampleSpec { size, fill: rng.next_u64(), duration, cts: 0, sync: rng.bool() } });
+        }
+        ops.push(Op::End);
+        let h = base(ops, mts);
+        if !representable(&h) {
+            continue;
+        }
+        let start_pos = if mode == 0 {
+            two32 - 40 - rng.below(payload + 120).min(two32 - 41)
+        } else if rng.chance(1, 4) {
+            two32 - 20 + rng.below(60)
+        } else {
+            0
+        };
+        let side = if mode == 0 { "boundary_inside_output" } else { "durations" };
+        return Scenario { name: format!("generated:{}:{}", if mode == 0 { "position" } else { "durations" }, i), side, start_pos, h };
+    }
+    // (practically unreachable) fall back to a fixed small history
+    Scenario { name: format!("generated:fallback:{}", i), side: "durations", start_pos: 0, h: base(vec![Op::Add(track(0, 1000)), Op::Write { track_id: 1, s: big(3, 1, 1000) }, Op::End], 1000) }
+}
+
 fn eval(id: &str, sc: &Scenario, rep: &mut Report) {
     rep.begin_with(id, &json!({"scenario": sc.name}));
     let stream = SparseStream::new(sc.start_pos);
@@ -199,6 +253,12 @@ fn eval(id: &str, sc: &Scenario, rep: &mut Report) {
                         for t in &mv.tracks {
                             rep.note("chunk_offset_forms", if t.stbl.is_co64 { "co64" } else { "stco" });
                             rep.note("header_versions", &format!("mdhd v{} tkhd v{} mvhd v{}", t.mdhd.version, t.tkhd.version, mv.mvhd.version));
+                            if sc.name.starts_with("generated:") {
+                                rep.cover_nt(hash_str(&format!("gen|{}|{}|{}|{}|{}|{}", sc.side, mv.tracks.len(), t.stbl.is_co64, t.mdhd.version, t.tkhd.version, mv.mvhd.version)));
+                                if t.stbl.is_co64 && mv.tracks.iter().any(|u| !u.stbl.is_co64) {
+                                    rep.add("generated_outputs_mixing_stco_and_co64_tracks", 1);
+                                }
+                            }
                         }
                     }
                 }
@@ -209,8 +269,13 @@ fn eval(id: &str, sc: &Scenario, rep: &mut Report) {
             None => fails.push(("no_output".into(), json!({}))),
         }
     }
-    rep.cover_nt(hash_str(&format!("{}|{}", sc.name.split('=').next().unwrap_or(""), sc.side)));
-    rep.cover_nt(hash_str(&sc.name));
+    if sc.name.starts_with("generated:") {
+        // distinct = which header forms the output ended up with, per mode
+        rep.add("generated_scenarios", 1);
+    } else {
+        rep.cover_nt(hash_str(&format!("{}|{}", sc.name.split('=').next().unwrap_or(""), sc.side)));
+        rep.cover_nt(hash_str(&sc.name));
+    }
     if rep.want_sample() {
         rep.sample(json!({"scenario": sc.name, "side": sc.side, "start_position": sc.start_pos, "ops": sc.h.ops.len(), "history_head": sc.h.short().chars().take(300).collect::<String>()}));
     }
@@ -238,6 +303,23 @@ pub fn run(args: &Args) -> i32 {
                 continue;
             }
             eval(&id, &sc, &mut rep);
+        }
+    }
+    // generated cheap scenarios (no volume): see `generated`
+    let ng = args.scale(6_000, 200_000);
+    for g in 0..ng {
+        idx += 1;
+        if !args.mine(idx) {
+            continue;
+        }
+        let id = format!("gen:{}", g);
+        if !args.want(&id) {
+            continue;
+        }
+        let sc = generated(args.seed, g);
+        eval(&id, &sc, &mut rep);
+        if rep.too_many_fails() {
+            return rep.finish();
         }
     }
     if !args.thorough() {
